@@ -137,6 +137,10 @@ func (tx *Transaction) Deserialization(source *common.ZeroCopySource) error {
 	if eof {
 		return errors.New("[Deserialization] read sigs length error")
 	}
+	if l > source.Len() {
+		// every signature entry takes more than one byte
+		return errors.New("[Deserialization] sigs length exceeds the remaining data")
+	}
 	sigs := make([]Sig, l)
 	for i := 0; i < int(l); i++ {
 		var sig Sig
